@@ -1356,9 +1356,12 @@ def _or_insert_with(eng, t, a, fr, dt):
 def _or_default(eng, t, a, fr, dt):
     def mkd():
         g = t.self_ty or ''
-        if 'HashMap' in g.split(',')[-1]:
-            return MapV()
-        raise Unmodelled('or_default for ' + g)
+        k = g.find('<')
+        if k < 0:
+            raise Unmodelled('or_default for ' + g)
+        args = top_level_split(g[k + 1:g.rindex('>')], ', ')
+        vty = args[-1].strip()
+        return eng.call_path('<%s as Default>::default' % vty, [], fr.tsubst if fr else None)
     return _entry_or_insert(eng, a[0], mkd)
 
 
